@@ -18,7 +18,7 @@ from nauyaca.server.protocol import GeminiServerProtocol  # noqa: E402
 
 SIZE = {"3": "size=3", "0": "size=0", "plus": "size=+3", "underscore": "size=0_3", "spaces": "size= 3 ", "arabic": "size=٣",
         "fullwidth": "size=３", "negzero": "size=-0", "neg": "size=-3", "alpha": "size=abc", "empty": "size=", "float": "size=3.0",
-        "missing": "mime=text/plain", "hex": "size=0x3"}
+        "missing": "mime=text/plain", "hex": "size=0x3", "nbsp": "size=\u00a03\u3000", "nbspKey": "\u2003size\u00a0=3"}
 PATH = {"plain": "/up/f.gmi", "empty": "", "pct": "/up/a%20b%3Bc.gmi"}
 OWN = {"C08": {"OnlyValidReachHandler", "ValidNotRefused"}}
 
